@@ -4,7 +4,7 @@
    and returns both answers.  All request-specific logic is here in Coq, so that
    the OCaml side is a 100-line parser/printer. *)
 From Coq Require Import List NArith Bool.
-From Traph Require Import Bytes Consts Helpers Rules Tst Traph Spec Codec Storage Traphw Sched.
+From Traph Require Import Bytes Consts Helpers Rules Tst Traph Spec Codec Storage Traphw Sched TraceDefs Store.
 Import ListNotations.
 Open Scope N_scope.
 
@@ -212,6 +212,14 @@ Definition exec (op : N) (args : list ans) (st : dstate) : dstate * ans :=
           let d := pl (g_bytes A0) true true true in
           AList [ANum (blen i); ANum (blen o); ANum (blen d); ANum (sumw i); ANum (sumw o); ANum (sumw d)] in
       (st, both (figs (fun l x y z => page_links l x y z m)) (figs (fun l x y z => s_page_links l x y z a)))
+  | 47 =>
+      (* the located node by the tree model, and by pointer following on the stored blocks *)
+      let f := files_of m in
+      let blk := b_lru_node f (g_bytes A0) in
+      (st, both (AList [a_opt (fun d => ANum (addr d)) (find (lru_iter (g_bytes A0)) (tr m));
+                        a_opt ANum blk;
+                        match blk with Some a => a_opt ABytes (b_windup_lru f a) | None => ANone end])
+                ANone)
   | 40 => (st, both (a_list ABytes (lru_variations (g_bytes A0))) ANone)
   | 41 => (st, both (match find (lru_iter (g_bytes A0)) (tr m) with
                      | Some d => AList [ANum 1; ABytes (lru_at (addr d) m)]
